@@ -1,6 +1,7 @@
 import MosnVerif.Lemmas.TlsSelect
 import MosnVerif.Lemmas.TlsUpdate
 import MosnVerif.Model.TlsTrust
+import MosnVerif.Model.TlsConnect
 /-!
 # C13 — TLS policy is enforced as configured (property theorems only)
 
@@ -440,4 +441,93 @@ example : serverAccepts (getClientAuth true true) .stolenKey = false ∧ serverA
 example : clientVerify true false = (true, true) ∧ clientVerify true true = (true, false) := by decide
 example : connDecision true true true false 0x47 = .plainPeeked ∧ connDecision true true true false 0x16 = .tlsPeeked := by decide
 
+/-! ## No downgrade to plaintext (upstream connect, downstream accept)
+
+`tryConnect`, `clientMngConn`, `mngFallback`, `acceptDecision` are regenerated from pkg/network/connection.go,
+pkg/mtls/tls_context_manager.go and pkg/server/handler.go (`Gen/TlsConnect.lean`); the guard of the plaintext re-dial is
+rendered as a boolean expression over the manager's fallback flag and named predicates of the handshake error. -/
+section NoDowngrade
+open MosnVerif.Model.TlsConnect MosnVerif.Gen.TlsConnect MosnVerif.Gen.TlsPolicy
+
+/-- **connect_meets_spec**: for every cluster TLS configuration, every handshake outcome and every outcome of the two
+dials, the regenerated `tryConnect` (over the regenerated `clientContextManager.Conn` / `Fallback`) ends where the
+statement says, and opens exactly the connections the statement allows. -/
+theorem connect_meets_spec (c : Cfg) (hs : Hs) (d1 d2 : Bool) :
+    reached (connect c hs d1 d2) = specReached c hs d1 d2 ∧ (connect c hs d1 d2).dials = specDials c hs d1 ∧
+    ((connect c hs d1 d2).event = .connected ↔ specReached c hs d1 d2 ≠ .failed) := by
+  cases c with | mk hm en fb =>
+  cases hm <;> cases en <;> cases fb <;> cases hs <;> cases d1 <;> cases d2 <;> decide
+
+/-- **no_downgrade_without_fallback**: for EVERY failing handshake outcome (bad certificate, alert, reset, EOF, timeout,
+other), a connect ends in a plaintext connection iff the first dial succeeded and (TLS is not configured, or `fallback`
+is set and the re-dial succeeded). No predicate of the error takes part. -/
+theorem no_downgrade_without_fallback (c : Cfg) (hs : Hs) (d1 d2 : Bool) (hne : hs ≠ .ok) :
+    reached (connect c hs d1 d2) = .plainConnected ↔
+      d1 = true ∧ (c.tls = false ∨ (c.fallback = true ∧ d2 = true)) := by
+  cases c with | mk hm en fb =>
+  cases hm <;> cases en <;> cases fb <;> cases hs <;> cases d1 <;> cases d2 <;> first | (exact absurd rfl hne) | decide
+
+/-- **tls_only_never_plain**: TLS configured, `fallback` off: whatever the upstream does, the connect never ends in
+plaintext, MOSN dials exactly once (no second, plaintext connection is ever opened), and a failed handshake is reported
+as a failed connect. -/
+theorem tls_only_never_plain (c : Cfg) (htls : c.tls = true) (hfb : c.fallback = false) (hs : Hs) (d1 d2 : Bool) :
+    reached (connect c hs d1 d2) ≠ .plainConnected ∧ (connect c hs d1 d2).dials = 1 ∧
+    (hs ≠ .ok → (connect c hs d1 d2).failed = true ∧ (connect c hs d1 d2).event ≠ .connected) := by
+  cases c with | mk hm en fb =>
+  cases hm <;> cases en <;> cases fb <;> simp [Cfg.tls] at htls hfb <;>
+    cases hs <;> cases d1 <;> cases d2 <;> decide
+
+/-- **redial_guard_is_fallback**: the second (plaintext) dial happens iff the first dial succeeded, TLS is configured,
+the handshake failed and the `fallback` flag of the cluster's TLS configuration is set. -/
+theorem redial_guard_is_fallback (c : Cfg) (hs : Hs) (d1 d2 : Bool) :
+    (connect c hs d1 d2).dials = 2 ↔ (d1 = true ∧ c.tls = true ∧ hs ≠ .ok ∧ c.fallback = true) := by
+  cases c with | mk hm en fb =>
+  cases hm <;> cases en <;> cases fb <;> cases hs <;> cases d1 <;> cases d2 <;> decide
+
+/-- a completed handshake gives a TLS connection (never plaintext), with or without `fallback` -/
+theorem handshake_ok_is_tls (c : Cfg) (htls : c.tls = true) (d2 : Bool) :
+    reached (connect c .ok true d2) = .tlsConnected := by
+  cases c with | mk hm en fb =>
+  cases hm <;> cases en <;> cases fb <;> simp [Cfg.tls] at htls <;> cases d2 <;> decide
+
+/-- **accept_plain_iff**: an accepted downstream connection is served in plaintext iff the listener has no TLS manager,
+or the connection was handed over by the old process (it is wrapped there), or it is not TCP / no context is ready (the
+two known pass-through findings), or inspector mode is on and the first byte read is not 0x16. For every first byte. -/
+theorem accept_plain_iff (hasMng tr tcp en ins pf : Bool) (b : Nat) :
+    accepted hasMng tr tcp en ins pf b = .plain ↔
+      (hasMng = false ∨ tr = true ∨ tcp = false ∨ en = false ∨ (ins = true ∧ pf = false ∧ b ≠ 0x16)) := by
+  cases hasMng <;> cases tr <;> cases tcp <;> cases en <;> cases ins <;> cases pf <;> by_cases h : b = 0x16 <;>
+    simp [accepted, acceptDecision, connDecision, connPlain, h]
+
+/-- **tls_only_listener_never_plain**: a TCP listener with a ready TLS context and inspector off serves every accepted
+connection through a TLS server connection: no first byte, no peek outcome leads to plaintext; an error of the
+manager closes the connection. -/
+theorem tls_only_listener_never_plain (pf : Bool) (b : Nat) :
+    accepted true false true true false pf b = .tls ∧
+    (∀ tr tcp en ins, accepted true tr tcp en ins pf b = .closed → (ins = true ∧ pf = true)) := by
+  refine ⟨by simp [accepted, acceptDecision, connDecision, connPlain], ?_⟩
+  intro tr tcp en ins
+  cases tr <;> cases tcp <;> cases en <;> cases ins <;> cases pf <;> by_cases h : b = 0x16 <;>
+    simp [accepted, acceptDecision, connDecision, connPlain, h]
+
+-- instances: every failing outcome without fallback fails; with fallback it re-dials in plaintext
+example : Hs.all.map (fun hs => reached (connect ⟨true, true, false⟩ hs true true)) =
+    [.tlsConnected, .failed, .failed, .failed, .failed, .failed, .failed] := by decide
+example : Hs.all.map (fun hs => reached (connect ⟨true, true, true⟩ hs true true)) =
+    [.tlsConnected, .plainConnected, .plainConnected, .plainConnected, .plainConnected, .plainConnected, .plainConnected] := by decide
+example : (connect ⟨true, true, true⟩ .timeout true false).dials = 2 ∧ reached (connect ⟨true, true, true⟩ .timeout true false) = .failed := by decide
+-- hypotheses of tls_only_never_plain are satisfiable
+example : (⟨true, true, false⟩ : Cfg).tls = true ∧ (⟨true, true, false⟩ : Cfg).fallback = false := by decide
+/-- NEGATION WITNESS: the guard of the re-dial with one more disjunct (`fallback ∨ the error is a net.Error timeout`,
+"the peer does not speak TLS") -/
+def connectTimeoutDowngrade (c : Cfg) (hs : Hs) (dial1 dial2 : Bool) : Try :=
+  let m := clientMngConn true c.enabled (hs == .ok)
+  tryConnect dial1 c.hasMng m.1 m.2 hs.isEOF hs.isNetError hs.isTimeout
+    (mngFallback c.fallback || (hs.isNetError && hs.isTimeout)) dial2
+example : reached (connectTimeoutDowngrade ⟨true, true, false⟩ .timeout true true) = .plainConnected ∧
+    (connectTimeoutDowngrade ⟨true, true, false⟩ .timeout true true).dials = 2 ∧
+    reached (connectTimeoutDowngrade ⟨true, true, false⟩ .timeout true true) ≠ specReached ⟨true, true, false⟩ .timeout true true := by decide
+example : accepted true false true true true false 0x47 = .plain ∧ accepted true false true true true false 0x16 = .tls ∧
+    accepted true false true true true true 0 = .closed ∧ accepted false false true true false false 0x16 = .plain := by decide
+end NoDowngrade
 end MosnVerif.Props.C13
